@@ -3,8 +3,9 @@ import vlib
 from props import common, mix, disp, sched
 
 THM = "NextestModel.Thm.C02"
+THM_EXTRA = ["NextestModel.Thm.C02Term"]
 GEN = []
-CHECK_MODULES = ["NextestModel.Lemmas.System", "NextestModel.Model.System", "NextestModel.Lemmas.SchedLive"]
+CHECK_MODULES = ["NextestModel.Lemmas.System", "NextestModel.Lemmas.SystemTerm", "NextestModel.Model.System", "NextestModel.Lemmas.SchedLive"]
 TRUSTED = ["model: Model/Dispatcher (registration discipline: new_test / existing_test / finish_test panics) and Model/Sched (future-queue 0.4.0)",
            "that each selected test's future is created from the priority queue exactly once and unselected tests are dropped before scheduling is executor wiring, exercised end-to-end only"]
 ASSUMPTIONS = ["attempt numbering / one process per attempt / no overlap of attempts are properties of the per-unit loop (executor), covered by the end-to-end engine"]
